@@ -252,6 +252,9 @@ const TEMPLATES: &[&[&str]] = &[
     &["Wa:rlx Wb:rel", "Rb:rlx F:acq Wc:rel", "Rc:acq Ra:rlx"],
     &["Wa", "Ra:rlx F:sc Wb", "Rb F:sc Ra"],
     &["Wa F:sc Wb", "Rb:rlx F:sc Ra"],
+    &["Wa F:rel Ub:acq", "Rb:acq Ra"],
+    &["Wa F:rel Ub:rlx", "Rb:rlx F:acq Ra"],
+    &["Wa Ub:rel", "Ub:rlx", "Rb:acq Ra"],
     // 3-location chains
     &["Wa Wb", "Rb F Wc", "Rc F Ra"],
     &["Wa F Wb", "Ub Wc", "Rc Ra"],
@@ -307,7 +310,8 @@ pub fn gen_litmus_template(rng: &mut Rng) -> Program {
                 }
                 b'U' => {
                     used[loc] = true;
-                    let o = pick_rmw_ord(rng, pal);
+                    let drawn = pick_rmw_ord(rng, pal);
+                    let o = pinned.unwrap_or(drawn);
                     match vs.bit() {
                         Some(bit) if rng.chance(1, 2) => Op::FetchAdd { a: loc as u8, v: bit, o },
                         _ => Op::Swap { a: loc as u8, v: vs.constant(), o },
@@ -1282,6 +1286,9 @@ pub fn gen_park_mp(rng: &mut Rng) -> Program {
 /// section of its own) stores to its atomic and loads the other's inside a read section. Both
 /// loads seeing the other store needs both read locks held at once.
 pub fn gen_rw_overlap(rng: &mut Rng) -> Program {
+    if rng.chance(1, 2) {
+        return gen_rw_readers_then_writer(rng);
+    }
     let mut vs = ValueSrc::new();
     let nt = rng.range(2, 3);
     let mut p = Program { atomics: vec![0; nt], n_rwlock: 1, ..Default::default() };
@@ -1315,6 +1322,43 @@ pub fn gen_rw_overlap(rng: &mut Rng) -> Program {
     for b in bodies.into_iter().skip(first) {
         p.threads.push(b);
     }
+    p
+}
+
+/// Two or three readers whose sections may overlap, and a writer: each reader's section and the
+/// writer's section exclude each other, so one of them sees the other's store - whichever reader
+/// leaves first or last.
+fn gen_rw_readers_then_writer(rng: &mut Rng) -> Program {
+    let mut vs = ValueSrc::new();
+    let n_readers = rng.range(2, 3);
+    let mut p = Program { atomics: vec![0; n_readers + 1], n_rwlock: 1, ..Default::default() };
+    let wloc = n_readers as u8;
+    let mut threads: Vec<Vec<Op>> = Vec::new();
+    for r in 0..n_readers {
+        let mut b = vec![Op::RLock { l: 0 }];
+        if r == 0 || rng.chance(1, 2) {
+            b.push(Op::Store { a: r as u8, v: vs.constant(), o: MO::Rlx });
+            b.push(Op::Load { a: wloc, o: MO::Rlx });
+        }
+        b.push(Op::RUnlock { l: 0 });
+        threads.push(b);
+    }
+    let mut w = vec![Op::WLock { l: 0 }, Op::Store { a: wloc, v: vs.constant(), o: MO::Rlx }];
+    for r in 0..n_readers {
+        w.push(Op::Load { a: r as u8, o: MO::Rlx });
+    }
+    w.push(Op::WUnlock { l: 0 });
+    threads.push(w);
+    rng.shuffle(&mut threads);
+    let mut t0 = Vec::new();
+    for i in 0..threads.len() {
+        t0.push(Op::Spawn { t: (i + 1) as u8 });
+    }
+    for i in 0..threads.len() {
+        t0.push(Op::Join { t: (i + 1) as u8 });
+    }
+    p.threads = vec![t0];
+    p.threads.extend(threads);
     p
 }
 
